@@ -146,3 +146,19 @@ var recursionTable = map[string]string{
 	"cycle:(ir.Register).String":                    "formats itself with an integer verb (call-graph imprecision, no real cycle)",
 	"cycle:(ops.Op).String":                         "stringer-generated: the fallback formats the integer value with %d (call-graph imprecision, no real cycle)",
 }
+
+// narrowTable: narrowing conversions that are safe for a reason the analysis
+// cannot see, keyed "<function>:<from>-><to>" with a site count.
+type narrowEntry struct {
+	count    int
+	reason   string
+	requires string // structural precondition verified on every run ("" = none)
+}
+
+var narrowTable = map[string]narrowEntry{
+	"(*code.Builder).Emit:int->int32": {1, "source line number: bounded by the length of the source text, which is held in memory", ""},
+	"(*code.Builder).EmitJump:int->code.Offset": {1, "distance between two opcodes of one function; ProcessCode rejects functions longer than 32767 opcodes before the unit can be used", "function-size-limit"},
+	"(*code.Builder).EmitLabel:int->code.Offset": {1, "same as EmitJump", "function-size-limit"},
+	"ircomp.allocReg:int->uint8": {2, "the loop index is < len(regs) and len(regs) <= 255 because this function is the only place register slices grow, by one, and it refuses at 255", "append-guarded:ircomp|allocReg"},
+	"(*ircomp.ConstantCompiler).ProcessCode:int->int16": {3, "numbers of registers, cells and upvalue destinations: each is allocated through allocReg, which stops at 255", "append-guarded:ircomp|allocReg"},
+}
